@@ -754,6 +754,8 @@ def _run_transport_faults(ctx, drv, rng, depths):
                     delta = rng.choice((0x83, 0xc0, 0xc3, 0xff, rng.randrange(1, 256)))   # cc 00h -> an error code
                 sc = _scenario(rng, gen_routing(rng, d), final='corrupt-wrapper', max_retries=rng.choice((1, 2)),
                                corrupt={'layer': layer, 'pos': pos, 'delta': delta})
+                if sc['cmd'] == SEND_MESSAGE:
+                    sc['cmd'] = 0x35         # command id 34h has its own stream; here the wrapper is the subject
                 ctx.case(('transport-corrupt', repr(sorted(sc.items()))))
                 ctx.count('transport:corrupted-wrapper:%s' % (WRAPPER_FIELDS[pos] if pos >= 0 else 'payload checksum'))
                 ctx.count('transport:corrupted-wrapper:depth-%d' % d)
@@ -765,6 +767,8 @@ def _run_transport_faults(ctx, drv, rng, depths):
                     return
                 sc = _scenario(rng, gen_routing(rng, d), final='wrapped' if d >= 2 else 'plain',
                                max_retries=rng.choice((1, 3)), late_ack={'cc': cc, 'age': age})
+                if sc['cmd'] == SEND_MESSAGE:
+                    sc['cmd'] = 0x35
                 ctx.case(('transport-late-ack', repr(sorted(sc.items()))))
                 ctx.count('transport:late-ack:%s' % ('bridged' if d >= 2 else 'not-bridged'))
                 judge_transport(ctx, drv, sc)
